@@ -100,6 +100,13 @@ class Transaction:
         # This is a critical check in production systems
         table_schema = self._resolve_table_schema()
         for data_file in files:
+            # Protect the file from garbage collection for as long as this
+            # transaction is live: a pre-built file may already be older than
+            # the grace period, and nothing references it until the commit.
+            # Marker first, existence check second (append_data has registered
+            # its own file already).
+            if not self._has_inflight_marker(data_file.file_path):
+                self._register_inflight(data_file.file_path)
             if not self.file_manager.validate_file_exists(data_file.file_path):
                 raise FileNotFoundError(f"Data file does not exist: {data_file.file_path}")
             if table_schema is not None:
@@ -302,6 +309,10 @@ class Transaction:
         self.append_files([updated_data_file])
 
         return self
+
+    def _has_inflight_marker(self, file_path: str) -> bool:
+        marker_name = file_path.rsplit("/", 1)[-1]
+        return f"{_INFLIGHT_PATH}/{marker_name}.inflight" in self._inflight_markers
 
     def _register_inflight(self, file_path: str) -> None:
         """Write a GC-protection marker for a file this transaction is about to
